@@ -91,8 +91,25 @@ PROPS["C15"] = dict(
     thorough=dict(shards=16, timeout=1800),
 )
 
+PROPS["C19"] = dict(
+    pkg="c19", level="exploration", design_ref="DESIGN.md section 3, C19",
+    technique="rapid state machine over the broker's published methods against a per-(id,topic) FIFO model; generated concurrent publisher/consumer/churn workloads with token-conservation and per-publisher order invariants",
+    level_text=("(a) Model-based: subscribe/unsubscribe/unicast/multicast/broadcast/poll sequences through real clients over the mock transport; every return "
+                "value and every poll result must equal the FIFO model (nothing lost, duplicated, reordered or misdelivered), including polls that time out "
+                "and what OnUnsubscribe is handed. (b) Generated concurrent workloads with short poll time-outs so that time-outs race with publishes; the "
+                "recorded history must conserve every accepted token exactly once and keep per-publisher order. Schedules in (b) are sampled."),
+    level_note="Heartbeat disabled (HeartBeat=0) as the statement presupposes a client that keeps polling; one poller per client id; (b) samples Go scheduler interleavings, it does not enumerate them.",
+    rule=("sequential: rapid-drawn histories over 3 client ids x 2 topics; non-trivial = a publish was accepted for an id after one of its polls had timed out. "
+          "concurrent: workloads of 1..4 publishers x 5..60 messages, 1..3 consumers, optional subscribe/unsubscribe churn, poll timeout 0.3-3ms; "
+          "non-trivial = at least one poll timed out empty and at least one message was delivered. Distinct by history / workload text."),
+    assumptions=["the mock transport carries requests in-process; the broker code path (headers, id handling, codec) is the real one",
+                 "a poll returning an empty map after the broker's Timeout is a legitimate outcome when nothing is queued"],
+    quick=dict(shards=4, timeout=500),
+    thorough=dict(shards=16, timeout=1800),
+)
+
 # properties not claimed yet (kept current as checks land)
 _ALL = ["C%02d" % i for i in range(1, 21)]
 NOT_APPLICABLE = [dict(property_id=p, reason="check not built yet in this revision (planned in DESIGN.md section 3); not a limit of the technique")
                   for p in _ALL if p not in PROPS]
-HOOK_COMMITS = ["16e4c9c"]
+HOOK_COMMITS = ["16e4c9c", "8b4a7e5"]
